@@ -2,6 +2,7 @@
 
 mod util;
 mod c01;
+mod c12;
 mod c13;
 mod c14;
 mod c20;
@@ -9,6 +10,7 @@ mod c20;
 fn main() {
     vcore::main_for(|id| match id {
         "C01" => Some(c01::check()),
+        "C12" => Some(c12::check()),
         "C13" => Some(c13::check()),
         "C14" => Some(c14::check()),
         "C20" => Some(c20::check()),
